@@ -164,10 +164,8 @@ func initMode(path string) int {
 		return 2 // strict
 	}
 	switch path {
-	case "errors", "internal/oserror", "io", "io/fs", "os", "syscall", "strconv",
-		"unicode/utf8", "encoding/binary", "path", "strings", "bytes", "sort",
-		"math", "math/bits", "io/ioutil", "context", "time",
-		"github.com/u-root/uio/ulog", "golang.org/x/sys/unix", "internal/bytealg", "internal/itoa":
+	case "errors", "internal/oserror", "io", "io/fs", "os", "syscall",
+		"path", "io/ioutil", "github.com/u-root/uio/ulog", "internal/bytealg":
 		return 1 // lenient
 	}
 	return 0
@@ -182,6 +180,9 @@ func (in *Interp) initPackages(root *ssa.Package) {
 	in.funcsSeen = map[*ssa.Function]bool{} // do not report initialisers as encoded functions
 	in.callSSA(nil, f.Pos(), f, nil, nil)
 	in.funcsSeen = saved
+	if os.Getenv("VERIF_INIT_DEBUG") != "" {
+		fmt.Printf("[init] %d steps\n", in.steps)
+	}
 	in.steps = 0
 }
 
